@@ -31,7 +31,9 @@ Inductive obs :=
 | OPBuiltin (code : nat)                       (* pure API: built-in reported: 1 assign, 2 raise, 3 emit, 4 other *)
 | OFail                                        (* on_error hook: the machine entered the error status *)
 | OClock (t : nat)
-| OSvc (iid : string).                         (* an invoked service was called *)                            (* the virtual clock, recorded when an event starts processing and after a slow action *)                             (* answer of can(event), probed by the harness before a send *)
+| OSvc (iid : string)                          (* an invoked service was called *)
+| OStarted                                     (* on_interpreter_start hook *)
+| OStopped.                                    (* on_interpreter_stop hook *)                            (* the virtual clock, recorded when an event starts processing and after a slow action *)                             (* answer of can(event), probed by the harness before a send *)
 
 (* an armed after-timer or a running invoked service, on the virtual clock (ms) *)
 Inductive pkind :=
